@@ -87,6 +87,16 @@ public:
 		return std::shared_ptr<EventQueueImpl>(new RecQueue(role));
 	}
 	virtual Event dequeue(size_t blockMs) {
+		// non-blocking polls that find nothing are not recorded (a spinning step(0) loop
+		// would otherwise dominate the history); everything else is bracketed
+		if (blockMs == 0) {
+			Event e = BasicEventQueue::dequeue(blockMs);
+			if (e.name.size() || e.uuid.size()) {
+				{ tr::Rec(qid, "deq<").str(role).num(0); }
+				{ tr::Rec(qid, "deq>").str(role).rawjson(eventJSON(e)).str(e.uuid); }
+			}
+			return e;
+		}
 		{ tr::Rec(qid, "deq<").str(role).num(blockMs == std::numeric_limits<size_t>::max() ? -1 : (long long)blockMs); }
 		Event e = BasicEventQueue::dequeue(blockMs);
 		{ tr::Rec(qid, "deq>").str(role).rawjson(eventJSON(e)).str(e.uuid); }
